@@ -289,7 +289,7 @@ pub fn run(run: &mut Run) -> &'static str {
     run.proptest_part("first_iteration", RULE, strat, cases, move |c: &Case, st: &mut Stats| match c {
         Case::Tape(data) => {
             let mut t = Tape::new(data);
-            let Some(p) = storm_theme(&mut t) else {
+            let Some(p) = storm_theme_medium(&mut t) else {
                 st.discard();
                 return Ok(());
             };
